@@ -83,27 +83,27 @@ type visitedEntry struct {
 type Results struct {
 	mu sync.Mutex
 
-	Failures      []*Failure
-	KnownHits     map[string][]*Failure
-	Inconclusive  []string
-	Reach         map[string]int
-	Samples       []map[string]interface{}
-	PathsFinished int64
-	PathsPruned   int64
-	PathsBlocked  int64 // paths ending with goroutines blocked but main done (informational)
-	SleepBlocked  int64
-	CacheHits     int64
-	States        int64
-	Transitions   int64
-	Forks         int64
-	Instrs        int64
+	Failures        []*Failure
+	KnownHits       map[string][]*Failure
+	Inconclusive    []string
+	Reach           map[string]int
+	Samples         []map[string]interface{}
+	PathsFinished   int64
+	PathsPruned     int64
+	PathsBlocked    int64 // paths ending with goroutines blocked but main done (informational)
+	SleepBlocked    int64
+	CacheHits       int64
+	States          int64
+	Transitions     int64
+	Forks           int64
+	Instrs          int64
 	UnknownBranches int64
-	ModelHits     int64
-	MaxDepth      int64
-	Funcs         map[string]bool
-	stop          int32
-	failKeys      map[string]bool
-	Observations  []string
+	ModelHits       int64
+	MaxDepth        int64
+	Funcs           map[string]bool
+	stop            int32
+	failKeys        map[string]bool
+	Observations    []string
 }
 
 func (r *Results) noteInconclusive(msg string) {
